@@ -61,7 +61,7 @@ def t_points(draw, pts, n, allow_outside=False):
         if k == 'in':
             seg = draw(st.integers(0, len(pts) - 2))
             u = draw(st.floats(0.0, 1.0))
-            out.append(pts[seg] + u * (pts[seg + 1] - pts[seg]))
+            out.append(min(max(pts[seg] + u * (pts[seg + 1] - pts[seg]), pts[0]), pts[-1]))
         elif k == 'break':
             out.append(pts[j])
         elif k == 'break-':
